@@ -63,6 +63,31 @@ Theorem C11_sample_writer_file_typed : forall enc_block md5 p,
     Forall (FlacMeta.Blocks_level.ty_block u) (FlacMeta.Blocks.BStreaminfo (convM (f_si f)) :: map convB (f_blocks f)) /\
     Forall FlacMeta.Blocks_level.canon_block (FlacMeta.Blocks.BStreaminfo (convM (f_si f)) :: map convB (f_blocks f)).
 Proof. intros enc_block md5 p H1 H2. exact (sample_writer_file_typed enc_block md5 H1 H2 p). Qed.
+(* ... the same typed view for FlacByteWriter and FlacChannelWriter runs *)
+Theorem C11_byte_writer_file_typed : forall enc_block md5 p,
+  (forall l, length (md5 l) = 16%nat) -> (forall l, Forall (fun b => b < 256) (md5 l)) ->
+  forall (u : list N -> bool) en o rate bps ch tb wb chunks f,
+  options_wf o -> Forall plain (o_metadata o) -> seektables (o_metadata o) = 0%nat ->
+  byte_new p en [] o rate bps ch tb = Ok wb -> Forall byte_ok (concat chunks) ->
+  byte_run enc_block md5 p wb chunks = Ok f -> counters_fit (f_enc f) ->
+  exists meta',
+    f_stream f = meta' ++ frames_bytes (f_enc f) /\
+    FlacMeta.BlockList.write_blocks (FlacMeta.Blocks.BStreaminfo (convM (f_si f)) :: map convB (f_blocks f)) = Ok meta' /\
+    Forall (FlacMeta.Blocks_level.ty_block u) (FlacMeta.Blocks.BStreaminfo (convM (f_si f)) :: map convB (f_blocks f)) /\
+    Forall FlacMeta.Blocks_level.canon_block (FlacMeta.Blocks.BStreaminfo (convM (f_si f)) :: map convB (f_blocks f)).
+Proof. exact byte_writer_file_typed. Qed.
+Theorem C11_channel_writer_file_typed : forall enc_block md5 p,
+  (forall l, length (md5 l) = 16%nat) -> (forall l, Forall (fun b => b < 256) (md5 l)) ->
+  forall (u : list N -> bool) o rate bps ch tc wc chunks f,
+  options_wf o -> Forall plain (o_metadata o) -> seektables (o_metadata o) = 0%nat ->
+  channel_new p [] o rate bps ch tc = Ok wc -> Forall (chunk_ok (N.to_nat ch)) chunks ->
+  channel_run enc_block md5 p wc chunks = Ok f -> counters_fit (f_enc f) ->
+  exists meta',
+    f_stream f = meta' ++ frames_bytes (f_enc f) /\
+    FlacMeta.BlockList.write_blocks (FlacMeta.Blocks.BStreaminfo (convM (f_si f)) :: map convB (f_blocks f)) = Ok meta' /\
+    Forall (FlacMeta.Blocks_level.ty_block u) (FlacMeta.Blocks.BStreaminfo (convM (f_si f)) :: map convB (f_blocks f)) /\
+    Forall FlacMeta.Blocks_level.canon_block (FlacMeta.Blocks.BStreaminfo (convM (f_si f)) :: map convB (f_blocks f)).
+Proof. exact channel_writer_file_typed. Qed.
 Example C11_presets_qualify :
   Forall plain (o_metadata options_default) /\ seektables (o_metadata options_default) = 0%nat /\
   Forall plain (o_metadata options_fast) /\ seektables (o_metadata options_fast) = 0%nat /\
@@ -147,3 +172,5 @@ Proof.
   split; [constructor; [exact I|constructor; [reflexivity|constructor]]|].
   split; [cbn; lia|]. vm_compute. reflexivity.
 Qed.
+Print Assumptions C11_byte_writer_file_typed.
+Print Assumptions C11_channel_writer_file_typed.
